@@ -98,6 +98,18 @@ check("C03", "other",
       "typed-AST shape analysis of the pre-pass; go/types method-set comparison; SSA slice-origin classification of operand-list stores; automaton membership on the decoded ATN",
       "DESIGN.md section 3 (E9, E1, E8), section 4 (C03)")
 
+check("C07", "other",
+      "Structural necessary conditions decided on TransformModuleFilesToModel: no reachable may-panic instruction of the merger is left undischarged (same engine as C08); on every structured path through each merger loop exactly one thing happens to the item (one error, merged, or handed to an inner loop); the model is returned only with an empty error accumulator and every error return carries the nil model; every merge error is one of the five documented conflicts, raised under the documented dominating condition, and every documented conflict still has a site; every merge error names the file being processed and takes its position from that file's lines; every SourceInfo takes File from the file whose parse produced the object; the requested schema version is stored; the list a relation clash is tested against is rebuilt per item from the live map or accumulates accepted names; GetModuleForObjectTypeRelation has the three documented outcomes.",
+      "NOT decided: the iff between success and conflict-freedom and the conservation clause ('none lost, none invented, rewrites unchanged') over all file sets - these are value arguments. Observed pre-existing behaviour outside the rules: a non-module file whose types have relations is accepted; a file that declares and extends the same type is rejected.",
+      "SSA may-panic obligation discharge (E4); structured path enumeration over loop bodies; SSA dominating-condition analysis with access paths at error sites; typed-AST assignment classification",
+      "DESIGN.md section 3 (E4, E5, E9), section 4 (C07)")
+
+check("C08", "other",
+      "Panic freedom of the repository's own code in packages transformer, utils, validation, errors: every may-panic SSA instruction (nil dereference, nil-map write, index/slice bounds, unchecked assertion, nil interface/function call, explicit panic) reachable from the public entry points including listener callbacks is enumerated and discharged by a positive rule (freshness/flow, parameter non-nil at all call sites, dominating nil test, library contracts, length/index facts, grammar-driven typestate of listener fields, balanced rewrite stack, container-element invariants); graph package: no possibly-nil pointer is converted to an interface (typed nil). Lexer: no configuration inside a recursive lexer rule is re-entered by one word with two different call-stack growths on pre-pass output (necessary for the quadratic bound). Syntax errors surface: collecting listener attached to lexer and parser, records on every path, any recorded error voids the result, decoder errors propagate on every path.",
+      "NOT decided: nil dereferences/bounds inside the graph package beyond the typed-nil rule; termination and complexity in general (ANTLR prediction, regexp, yaml); panics inside third-party runtimes; well-foundedness of recursion. Known finding K2: form-feed runs make lexing cubic.",
+      "SSA obligation enumeration with dominator/def-use discharge rules and call-site fixpoint; rule-invocation dominators on the decoded parser ATN for typestate; lockstep pair exploration of lexer ATN configurations; path-sensitive error propagation",
+      "DESIGN.md section 3 (E4, E8 R8.6, E5), section 4 (C08)")
+
 _PENDING = "static check not built yet in this round; see DESIGN.md section 4 for the planned clauses"
 for _p in ["C01","C02","C03","C05","C06","C07","C08","C09","C10","C11","C12","C13","C14","C15","C16","C17","C18"]:
     if _p not in CHECKS:
